@@ -172,6 +172,13 @@ pub fn run_behaviour(pr: Proto, beh: &Beh, inst: &BInst, km: &KeyMat, book: &mut
                 via: inst.via.clone(),
             }),
             "remove" => bops.push(BOp::RemoveClaim(inst.keys[&o.k].clone())),
+            "extend" => bops.push(BOp::ExtendClaims(vec![(inst.keys[&o.k].clone(), inst.vals[&(o.k.clone(), o.v.clone())].clone())])),
+            "extendw" => {
+                // a boxed claim object handed to extend_claims: it serialises as {key: value}
+                let ck = inst.keys[&o.k].clone();
+                let obj = json!({ ck.clone(): inst.vals[&(o.k.clone(), o.v.clone())].clone() });
+                bops.push(BOp::ExtendClaims(vec![(ck, obj)]));
+            }
             "ack" => bops.push(BOp::Ack),
             "footer" => bops.push(BOp::SetFooter(inst.footer.clone())),
             "assertion" => bops.push(BOp::SetAssertion(inst.assertion.clone())),
@@ -231,6 +238,11 @@ pub fn run_behaviour(pr: Proto, beh: &Beh, inst: &BInst, km: &KeyMat, book: &mut
                                 for v in ["v1", "v2", "v3"] {
                                     if inst.vals[&(ak.to_string(), v.to_string())] == *cv {
                                         id = v.to_string();
+                                    }
+                                }
+                                for v in ["v1", "v2"] {
+                                    if id == "other" && json!({ ck.clone(): inst.vals[&(ak.to_string(), v.to_string())].clone() }) == *cv {
+                                        id = format!("w{}", v);
                                     }
                                 }
                                 if id == "other" && TIME_KEYS.contains(&ak) {
